@@ -425,9 +425,11 @@ fn value_to_sql_literal(value: &OwnedValue) -> String {
             if *scale <= 0 {
                 format!("{}", digits)
             } else {
-                let divisor = 10i128.pow(*scale as u32);
-                let int_part = digits / divisor;
-                let frac_part = (digits % divisor).abs();
+                // 10^scale leaves i128 at scale 39: such a value is all fraction
+                let (int_part, frac_part) = match 10i128.checked_pow(*scale as u32) {
+                    Some(divisor) => (digits / divisor, (digits % divisor).unsigned_abs()),
+                    None => (0, digits.unsigned_abs()),
+                };
                 format!(
                     "{}.{:0>width$}",
                     int_part,
